@@ -46,6 +46,7 @@ type simTask struct {
 }
 
 type simCluster struct {
+	lastInstall *simMsg // the install-snapshot request delivered last (a copy marked as duplicate)
 	rnd    *rand.Rand
 	w      *caseWriter
 	base   string
@@ -1028,6 +1029,11 @@ func (c *simCluster) deliver(i int) {
 				c.pipes[k] = p[1:]
 			}
 		}
+		if m.kind == rpcInstallSnap && !m.dup {
+			d := *m
+			d.dup = true
+			c.lastInstall = &d
+		}
 		if cut {
 			// no answer reaches the leader; what was in flight on that connection is lost with it
 			c.breakConn([2]uint64{m.from, m.to})
@@ -1038,7 +1044,7 @@ func (c *simCluster) deliver(i int) {
 				lit: fmt.Sprintf("resp %s %d", m.kind, res.resp.getResult())})
 		}
 		// a request may be delivered again later (a retry on a new connection carries the same bytes)
-		if pv == nil && !m.dup && m.kind == rpcAppendEntries && c.rnd.Intn(12) == 0 {
+		if pv == nil && !m.dup && (m.kind == rpcAppendEntries && c.rnd.Intn(12) == 0 || m.kind == rpcInstallSnap && c.rnd.Intn(3) == 0) {
 			d := *m
 			d.dup = true
 			c.net = append(c.net, &d)
